@@ -260,6 +260,14 @@ class Exec:
         a, b = self.as_bv(a), self.as_bv(b, a[2] if a[0] == "bv" else 64)
         w = a[2]
         x, y = a[1], b[1]
+        if op in ("Shl", "Shr", "ShlUnchecked", "ShrUnchecked"):
+            # MIR shifts mask the amount to the width of the left operand (the dev profile asserts amount < width before)
+            if b[2] < w:
+                y = "((_ zero_extend %d) %s)" % (w - b[2], y)
+            elif b[2] > w:
+                y = "((_ extract %d 0) %s)" % (w - 1, y)
+            y = "(bvand %s %s)" % (y, bvconst(w - 1, w))
+            return ("bv", "(%s %s %s)" % ("bvshl" if op.startswith("Shl") else "bvlshr", x, y), w)
         if op in ("Add", "AddUnchecked"):
             return ("bv", "(bvadd %s %s)" % (x, y), w)
         if op in ("Sub", "SubUnchecked"):
@@ -309,7 +317,8 @@ class Exec:
         rhs = rhs.strip()
         m = re.fullmatch(r"([A-Za-z]+)\((.*)\)", rhs)
         if m and m.group(1) in ("Add", "Sub", "Mul", "Div", "Rem", "BitAnd", "BitOr", "BitXor", "Eq", "Ne", "Lt", "Le", "Gt", "Ge",
-                                "AddWithOverflow", "SubWithOverflow", "MulWithOverflow", "AddUnchecked", "SubUnchecked", "MulUnchecked"):
+                                "AddWithOverflow", "SubWithOverflow", "MulWithOverflow", "AddUnchecked", "SubUnchecked", "MulUnchecked",
+                                "Shl", "Shr", "ShlUnchecked", "ShrUnchecked"):
             a, b = split_top(m.group(2))
             v = self.binop(p, m.group(1), self.operand(p, a), self.operand(p, b), dest)
             if v is not None:
@@ -678,6 +687,42 @@ def s_layout_val(ex, p, callee, argv, lhs):
     ex.write(p, r, pa, ("agg", src[1], src[2] + ("$layout",)))
 
 
+def s_dangling_helper(ex, p, callee, argv, lhs):
+    """any_vec::mem::dangling(&Layout) -> NonNull<u8>: the address is the layout's alignment (src/mem/mod.rs)"""
+    v = argv[0]
+    al = ex.read_cell(p, v[1], v[2] + ("align",), "usize")
+    p.events.append(("dangling", callee, [al]))
+    ex.set_ret(p, lhs, al)
+
+
+_PRIM_ALIGN = {"u8": 1, "i8": 1, "bool": 1, "u16": 2, "i16": 2, "u32": 4, "i32": 4, "u64": 8, "i64": 8, "usize": 8, "isize": 8, "u128": 16, "i128": 16}
+
+
+def s_nonnull_dangling(ex, p, callee, argv, lhs):
+    """core NonNull::<T>::dangling(): the address is align_of::<T>()"""
+    m = re.search(r"NonNull::<(\w+)>::dangling$", callee)
+    if not m or m.group(1) not in _PRIM_ALIGN:
+        raise Unsupported("NonNull::dangling of a type whose alignment the translator does not know: " + callee)
+    v = ("bv", bvconst(_PRIM_ALIGN[m.group(1)]), 64)
+    p.events.append(("dangling", callee, [v]))
+    ex.set_ret(p, lhs, v)
+
+
+def s_is_pow2(ex, p, callee, argv, lhs):
+    a = ex.as_bv(argv[0])
+    w = a[2]
+    ex.set_ret(p, lhs, ("bool", "(and (not (= %s %s)) (= (bvand %s (bvsub %s %s)) %s))" % (a[1], bvconst(0, w), a[1], a[1], bvconst(1, w), bvconst(0, w))))
+
+
+def s_trailing_zeros(ex, p, callee, argv, lhs):
+    a = ex.as_bv(argv[0])
+    w = a[2]
+    e = bvconst(w, 32)
+    for i in range(w - 1, -1, -1):
+        e = "(ite (= ((_ extract %d %d) %s) #b1) %s %s)" % (i, i, a[1], bvconst(i, 32), e)
+    ex.set_ret(p, lhs, ("bv", e, 32))
+
+
 SUMMARIES = [
     (r"^panic$|^panic_|core::panicking::|panic_fmt|panic_const|unwrap_failed|expect_failed|handle_alloc_error|::begin_panic|panic_display", s_panic),
     (r"AnyVecRaw::<.*>::capacity$|AnyVec::<.*>::capacity$|AnyVecTyped::<.*>::capacity$", s_pseudo("$capacity")),
@@ -706,7 +751,10 @@ SUMMARIES = [
     (r"alloc::realloc$", s_alloc("realloc")),
     (r"NonNull::<.*>::as_ptr$|NonNull::<.*>::new_unchecked$|NonNull::<.*>::cast", s_passthrough),
     (r"NonNull::<.*>::new$", s_fresh("nonnull_new")),
-    (r"mem::dangling$", s_fresh("dangling")),
+    (r"mem::dangling$", s_dangling_helper),
+    (r"NonNull::<.*>::dangling$", s_nonnull_dangling),
+    (r"<impl usize>::is_power_of_two$", s_is_pow2),
+    (r"<impl usize>::trailing_zeros$", s_trailing_zeros),
     (r"unwrap_or_else", s_fresh("unwrap_or_else")),
     (r"MaybeUninit::<.*>::uninit$", s_fresh("uninit")),
     (r"Arguments::<.*>::from_str$|Arguments::<.*>::new_const|Arguments::<.*>::new_v1", s_fresh("fmt_args")),
